@@ -476,6 +476,8 @@ def check_pool_lockset(ctx, fb, r_lock, r_drain):
                 if lhs.get('dn') == P + '::_jobs_count' and rhs.get('v') is not None and rhs['v'] & 1:
                     writers.add(f.qn + ('(lock)' if f.params else ''))
     ctx.instance(r_drain, key, dict(writers=sorted(writers)))
+    if not writers:
+        ctx.broken('R-DRAIN: no write of the stopped bit recognised (the representation of the pool state changed)')
     if writers != {'yaclib::FairThreadPool::Stop(lock)'}:
         ctx.report(r_drain, key, loop.where, 'the stopped bit is written by %s; only Stop(unique_lock&&), which is '
                    'reached after the drain test, may set it' % sorted(writers))
@@ -807,3 +809,61 @@ def check_job_fields(ctx, fb, rule, cls):
         ctx.report(rule, key + ' ' + fld.split('::')[-1], fns['Drop'].where,
                    '%s can hold jobs (Call() uses it) but Drop() never takes it: when the underlying executor refuses '
                    'the strand, the jobs parked there are neither Called nor Dropped' % fld.split('::')[-1])
+
+
+# ------------------------------------------------------------------------------------------------ R-STOPFINAL
+def check_stop_final(ctx, fb, rule):
+    """"Stopped" is final: whatever member(s) WasStop() reads, no other method may write them in a way that can take
+    the pool out of the stopped state.  Bit-sets (|= constant) and additions / subtractions of the job unit keep a set
+    bit set by construction; a plain assignment must either store the stopped value itself or lie on a path that
+    established !WasStop().  (A pool revived by SoftStop() after Stop() accepts jobs again — they are Called after the
+    stop, or parked forever when the workers are gone.)"""
+    P = 'yaclib::FairThreadPool'
+    ws = [f for f in fb.fn.values() if f.clsq == P and f.n == 'WasStop' and f.cfg is not None]
+    if not ws:
+        ctx.broken('R-STOPFINAL: FairThreadPool::WasStop not found')
+    fields = {n['dn'] for n in ws[0].own_nodes() if n['k'] == 'MemberExpr' and n.get('dn', '').startswith(P + '::')}
+    if not fields:
+        ctx.broken('R-STOPFINAL: WasStop() reads no member')
+    # the value(s) WasStop compares with (enum representation) — a store of such a value is the stop itself
+    stop_vals = {(ws[0].sn(c) or {}).get('v') for n in ws[0].own_nodes() if n['k'] == 'BinaryOperator' and
+                 n.get('op') in ('==', '!=', '&') for c in n['ch']} - {None}
+    key = 'R-STOPFINAL FairThreadPool'
+    nw = 0
+    for f in sorted(fb.fn.values(), key=lambda f: f.full):
+        if f.clsq != P or f.cfg is None or 'ctor' in f.flags or 'dtor' in f.flags:
+            continue
+        plain = [n for n in f.own_nodes() if n['k'] == 'BinaryOperator' and n.get('op') == '=' and
+                 (f.sn(n['ch'][0]) or {}).get('dn') in fields]
+        nw += len([n for n in f.own_nodes() if n['k'] in ('BinaryOperator', 'CompoundAssignOperator') and
+                   n.get('op', '').endswith('=') and n['op'] not in ('==', '!=', '<=', '>=') and
+                   (f.sn(n['ch'][0]) or {}).get('dn') in fields])
+        if not plain:
+            continue
+        w = ExecWalker(fb, P)
+        w.loop_bound = 2
+        ids = {n['i']: n for n in plain}
+
+        class _W(ExecWalker):
+            def on_node(self, fn, n, st):
+                super().on_node(fn, n, st)
+                if fn is f and n['i'] in ids:
+                    st.events.append(('plain-write', n['i'], fn.loc(n)))
+        res = _W(fb, P).run(f)
+        for st, _ in res:
+            ev = st.events
+            for i, e in enumerate(ev):
+                if e[0] != 'plain-write':
+                    continue
+                v = (f.sn(ids[e[1]]['ch'][1]) or {}).get('v')
+                if v is not None and v in stop_vals and ws[0].sn is not None and len(stop_vals) == 1:
+                    continue
+                running = any(b[0] == 'branch' and b[2] is False and any(c.endswith('::WasStop') for c in b[1]) and
+                              len([c for c in b[1] if c.startswith(P)]) == 1 for b in ev[:i])
+                if not running:
+                    ctx.report(rule, key, e[2], '%s assigns the member WasStop() reads on a path that did not establish '
+                               '!WasStop(): a pool that was already stopped can be taken out of the stopped state '
+                               '(revived) — it accepts jobs again after Stop()/HardStop()' % f.qn)
+                    return nw
+    ctx.instance(rule, key, dict(state_members=sorted(x.split('::')[-1] for x in fields), writes=nw))
+    return nw
